@@ -62,6 +62,9 @@ func build(c Case) env {
 
 // apply runs the helper; for "sub" the returned FS is observed through a listing of its root.
 func apply(fs hackpadfs.FS, op ops.Op) ops.Res {
+	if op.K == "create" {
+		return applyCreate(fs, op)
+	}
 	if op.K != "sub" {
 		return ops.ApplyFS(fs, op)
 	}
@@ -83,6 +86,48 @@ func apply(fs hackpadfs.FS, op ops.Op) ops.Res {
 		if res.Ents == nil {
 			res.Ents = []ops.Ent{}
 		}
+	})
+	if hung {
+		return ops.Res{Hung: true}
+	}
+	if pan != "" {
+		return ops.Res{Panic: pan}
+	}
+	return res
+}
+
+// applyCreate: Create hands back a read-write handle (os.Create does): write through it, seek back and read what was written.
+func applyCreate(fs hackpadfs.FS, op ops.Op) ops.Res {
+	var res ops.Res
+	pan, hung := vf.Guard(func() {
+		f, err := hackpadfs.Create(fs, op.P)
+		if err != nil {
+			res.Err, res.Stage = err, "open:"
+			return
+		}
+		defer func() {
+			if cerr := f.Close(); cerr != nil && res.Err == nil {
+				res.Err, res.Stage = cerr, "close:"
+			}
+		}()
+		data := op.Data
+		if data == nil {
+			data = []byte("probe")
+		}
+		if _, err := hackpadfs.WriteFile(f, data); err != nil {
+			res.Err, res.Stage = err, "write:"
+			return
+		}
+		if _, err := hackpadfs.SeekFile(f, 0, io.SeekStart); err != nil {
+			res.Err, res.Stage = err, "seek:"
+			return
+		}
+		b, err := io.ReadAll(f)
+		if err != nil {
+			res.Err, res.Stage = err, "readback:"
+			return
+		}
+		res.Data = b
 	})
 	if hung {
 		return ops.Res{Hung: true}
@@ -253,8 +298,8 @@ func check(c Case) (string, string, outcome) {
 type bareFile struct{ f hackpadfs.File }
 
 func (b bareFile) Stat() (hackpadfs.FileInfo, error) { return b.f.Stat() }
-func (b bareFile) Read(p []byte) (int, error)         { return b.f.Read(p) }
-func (b bareFile) Close() error                       { return b.f.Close() }
+func (b bareFile) Read(p []byte) (int, error)        { return b.f.Read(p) }
+func (b bareFile) Close() error                      { return b.f.Close() }
 
 type FileCase struct {
 	Helper string `json:"helper"`
